@@ -512,13 +512,28 @@ func ruleNoAppendOntoCallerStorage(p *Prog, c *Check, rule string) {
 		}
 		rt := typeStr(fn.Signature.Recv().Type())
 		for _, w := range sum.Writes {
-			if w.Kind != EAppend || (w.Target.Kind != PParam && w.Target.Kind != PParamR) || w.Target.Idx != 0 || w.Target.F == 0 {
+			if (w.Target.Kind != PParam && w.Target.Kind != PParamR) || w.Target.Idx != 0 || w.Target.F == 0 {
 				continue
 			}
-			n++
-			if where, isHeld := held[fld{rt, w.Target.F - 1}]; isHeld {
-				bad++
-				c.Bad(rule, fmt.Sprintf("%s#append-onto-caller-slice%d", qname(fn), bad), posOf(p, w.Ins), "appends in place to a field that may hold the caller's own slice (stored by "+where+"): elements the caller appended to its slice meanwhile are overwritten")
+			switch w.Kind {
+			case EAppend:
+				n++
+				if where, isHeld := held[fld{rt, w.Target.F - 1}]; isHeld {
+					bad++
+					c.Bad(rule, fmt.Sprintf("%s#append-onto-caller-slice%d", qname(fn), bad), posOf(p, w.Ins), "appends in place to a field that may hold the caller's own slice (stored by "+where+"): elements the caller appended to its slice meanwhile are overwritten")
+				}
+			case EElem, ECopy, EExtern:
+				// the elements of a slice the caller handed in are the caller's (and every other packet's that was
+				// given the same slice): wiping or patching them in place changes values behind their backs —
+				// `for i := range p.password { p.password[i] = 0 }` before storing the new one
+				if w.Target.Kind != PParamR {
+					continue // the field's own cell, not what it points to
+				}
+				n++
+				if where, isHeld := held[fld{rt, w.Target.F - 1}]; isHeld {
+					bad++
+					c.Bad(rule, fmt.Sprintf("%s#write-into-caller-slice%d", qname(fn), bad), posOf(p, w.Ins), "writes into the elements of a field that may hold the caller's own slice (stored by "+where+"): the caller's data, and every packet that was given the same slice, change with it")
+				}
 			}
 		}
 	}
